@@ -414,6 +414,11 @@ func runWorkflowJob(job *Job, res *Result) {
 	vs.SimExec = r.env.simExec
 	vs.CrashHook = r.crashHook
 	vs.FSHook = r.fsHook
+	// everything the hooks need is computed BEFORE the exploration: a lazily cached map iteration
+	// inside a hook would be a map-range site of the first execution only (site ordinals shift)
+	if len(job.Pre) > 0 && job.SeedDir == "" {
+		r.protectedFiles()
+	}
 	vs.ClockStep = time.Millisecond
 	if job.ClockStepMS > 0 {
 		vs.ClockStep = time.Duration(job.ClockStepMS) * time.Millisecond
